@@ -114,7 +114,7 @@ static void observe(const EB& s, const Model& m, const char* after, int draws) {
     if (frac) count("obs_fractional_c"); else count("obs_integral_c");
     if (want == static_cast<double>(m.k)) count("obs_c_equals_k"); else count("obs_c_below_k");
   }
-  sig(mix64(mix64(m.k, m.n), mix64(static_cast<uint64_t>(c * 4096), m.merged)));
+  sig(mix64(mix64(m.k, m.n), mix64(dbits(std::floor(c * 4096)), m.merged)));
 }
 
 // ---------------------------------------------------------------- weights
